@@ -19,7 +19,7 @@ static void one(c07_case *c) {
   static unsigned char in[1 << 21];
   size_t n = c07_unhex(c->pay[0], in);
   c07_setup(c, in, n);
-  ssin.p = 0; ssin.n = sizeof ssinbuf; ssout.p = 0; bytesleft = 100; flagok = 1;
+  ssin.p = 0; ssin.n = sizeof ssinbuf; ssout.p = 0; bytesleft = 100; flagok = 1; binqqargs[0] = 0;
   int code;
   h_exit_armed = 1;
   if (setjmp(h_jb) == 0) { qmqpd_main(); code = -1; } else code = h_exitcode;
@@ -129,6 +129,90 @@ static void enumerate(void) {
   }
 }
 
+/* every byte value in every peer-supplied string; address lengths 0..1030 in every role */
+static void enumerate2(void) {
+  c07_case c; hbuf b = {0};
+  for (unsigned k = 0; k < C07_NPEERV; k++) {
+    if (C07_PEER_HELO_ONLY(k)) continue;
+    if (!c07_mine()) continue;
+    char *helo; c07_peer_variant(&c, 'Q', k, &helo); free(helo);
+    hbuf_reset(&b); req(&b, "x\n", 2, "s@x", 3, 1, RC2); emit(&c, &b); c07_free(&c);
+  }
+  for (int role = 0; role < 4; role++) for (int i = 0; c07_addrlen(i) >= 0; i++) {
+    if (!c07_mine()) continue;
+    int len = c07_addrlen(i);
+    char *a = fill(len, 'q', "@ok.example"); str_t rr[3] = { S("first@x"), { a, len }, S("last@x") };
+    c07_defaults(&c, 'Q', len + role); hbuf_reset(&b);
+    if (role == 0) req(&b, "x\n", 2, a, len, 2, RC2);
+    if (role == 1) req(&b, "x\n", 2, "s@x", 3, 1, rr + 1);
+    if (role == 2) req(&b, "x\n", 2, "s@x", 3, 3, rr);
+    if (role == 3) req(&b, "x\n", 2, "", 0, 2, rr);   /* last of two, empty sender */
+    emit(&c, &b); c07_free(&c); free(a);
+  }
+}
+
+/* Real-queue leg (protocol letter 'q'): the real qmail-queue behind the real qmail.c.
+ * The envelope is made longer than qmail.c's 1024-byte buffer, so that part of it has reached qmail-queue when the session
+ * fails; the sender length sweeps a full period of the recipient record size, so that the flushed part ends at every position
+ * of a record (after 'T', inside the address, exactly at a record boundary); then the session fails in every way the daemon
+ * knows: the client disconnects (several cut points behind the flush), a recipient contains NUL, a recipient is too long,
+ * the framing breaks.  Nothing may be committed, whatever qmail-queue had read by then. */
+static void real_sweep(int quickdiv) {
+  c07_case c; hbuf b = {0};
+  static const int recs[] = { 4, 8, 16, 100 };
+  for (int ri = 0; ri < 4; ri++) {
+    int rec = recs[ri], L = rec - 2, nr = 1030 / rec + 6;
+    for (int sl = 0; sl < rec; sl++) for (int kind = 0; kind < 8; kind++) {
+      if (rec == 100 && !(kind == 1 || kind == 5)) continue;
+      if (kind == 0 && sl % 4) continue;
+      if (quickdiv > 1 && rec == 100 && (sl % quickdiv) && kind != 5) continue;
+      if (!c07_mine()) continue;
+      char *sender = fill(sl, 's', ""); static char rb[300][104]; static str_t rr[300];
+      for (int i = 0; i < nr + 3; i++) { memset(rb[i], 'a' + i % 26, L); rb[i][0] = 'r'; rr[i].s = rb[i]; rr[i].n = L; }
+      int n = nr;
+      char *longa = 0;
+      if (kind == 5) { rb[nr][L / 2] = 0; n = nr + 3; }       /* a recipient with NUL, then two good ones */
+      if (kind == 6) { longa = fill(1000 + sl % 5, 'l', "@x"); rr[nr].s = longa; rr[nr].n = 1000 + sl % 5; n = nr + 3; }
+      c07_defaults(&c, 'q', sl + kind); hbuf_reset(&b);
+      req(&b, "Subject: real\n\nbody\n", 20, sender, sl, n, rr);
+      size_t wire = (size_t)(L >= 10 ? 2 : 1) + 1 + L + 1;     /* netstring of one recipient */
+      if (kind >= 1 && kind <= 4) {                             /* the client disconnects: before the last comma, at a record boundary, inside records */
+        size_t back = kind == 1 ? 1 : kind == 2 ? 1 + wire : kind == 3 ? 1 + 2 * wire + wire / 2 : 2 + 3 * wire;
+        if (back < b.n) b.n -= back;
+      }
+      if (kind == 7) b.p[b.n - 1 - wire] = 'x';                 /* the length of the last recipient is not a number */
+      emit(&c, &b); c07_free(&c); free(sender); free(longa);
+    }
+  }
+}
+static void enumerate_real(void) {
+  c07_case c; hbuf b = {0};
+  /* clean sessions: must be acknowledged and committed exactly */
+  for (int k = 0; k < 8; k++) {
+    if (!c07_mine()) continue;
+    c07_defaults(&c, 'q', k); hbuf_reset(&b);
+    char *big = fill(k == 3 ? 9000 : 1500, 'b', "\n"); static char rb[40][16]; static str_t rr[40];
+    for (int i = 0; i < 40; i++) { snprintf(rb[i], 16, "u%d@h%d.example", i, i % 7); rr[i].s = rb[i]; rr[i].n = strlen(rb[i]); }
+    if (k == 0) req(&b, BODY, sizeof BODY - 1, "s@x.example", 11, 2, RC2);
+    if (k == 1) req(&b, "", 0, "", 0, 1, RC2);
+    if (k == 2) req(&b, big, 1500, "s@x", 3, 25, rr);
+    if (k == 3) req(&b, big, 9000, "s@x", 3, 40, rr);
+    if (k == 4) req(&b, "x\n", 2, "s", 1, 0, RC2);
+    if (k == 5) { char *a = fill(999, 'q', "@ok.example"); str_t r1[2] = { { a, 999 }, { a, 999 } }; req(&b, "x\n", 2, a, 999, 2, r1); free(a); }
+    if (k == 6) { req(&b, BODY, sizeof BODY - 1, "s@x", 3, 2, RC2); c.wfault = 1; }
+    if (k == 7) { req(&b, big, 1500, "s@x", 3, 25, rr); c.wfault = 2; }
+    emit(&c, &b); c07_free(&c); free(big);
+  }
+  /* every cut point of a short request */
+  { hbuf s = {0}; static const str_t r1[] = { S("u@a"), S("v@b.example") };
+    req(&s, "H: v\n\nb\n", 8, "s@x", 3, 2, r1);
+    for (size_t k = 0; k <= s.n; k++) {
+      if (!c07_mine()) continue;
+      c07_defaults(&c, 'q', (unsigned)k); hbuf_reset(&b); if (k) hbuf_add(&b, s.p, k); emit(&c, &b); c07_free(&c);
+    }
+    free(s.p); }
+}
+
 static void randoms(int nrandom, uint64_t seed) {
   c07_case c; hbuf b = {0};
   for (int r = 0; r < nrandom; r++) {
@@ -162,6 +246,11 @@ static void randoms(int nrandom, uint64_t seed) {
     if (mu == 4) { unsigned char x = "0:,9/"[h_below(5)]; size_t p = h_below(b.n + 1); hbuf_add(&b, "", 1); memmove(b.p + p + 1, b.p + p, b.n - 1 - p); b.p[p] = x; }
     if (h_below(25) == 0) c.wfault = h_below(6);
     c.chunk = (int[]){ 0, 0, 1, 3, 100 }[h_below(5)];
+    if (h_below(8) == 0) { static const char *odd[] = { "e\\", "a\"b", "(c", "d)", "<e>", "f,g;h", "\x7f\x80\xff", "i\\)j(" };   /* peer strings from the whole byte range */
+      int f = h_below(5); unsigned char v[16]; size_t vn = 1 + h_below(12);
+      for (size_t i = 0; i < vn; i++) v[i] = (unsigned char)(1 + h_below(255));
+      free(c.env[f]); c.env[f] = h_below(3) ? c07_hexdup(v, vn) : c07_hexs(odd[h_below(8)]); }
+    if (h_below(25) == 0) c.proto = 'q';                       /* the same session against the real qmail-queue */
     emit(&c, &b); c07_free(&c);
   }
 }
@@ -170,11 +259,14 @@ int main(int argc, char **argv) {
   c07_init();
   if (argc > 1 && !strcmp(argv[1], "-")) {
     static char line[1 << 23];
-    while (fgets(line, sizeof line, stdin)) { c07_case c; if (c07_parse(line, &c) && c.proto == 'Q' && c.npay >= 1) one(&c); }
+    while (fgets(line, sizeof line, stdin)) { c07_case c; if (c07_parse(line, &c) && toupper((unsigned char)c.proto) == 'Q' && c.npay >= 1) one(&c); }
   } else {
     int nrandom = h_argi(argc, argv, 1, 1000); uint64_t seed = (uint64_t)h_argi(argc, argv, 2, 1);
-    c07_shard = h_argi(argc, argv, 3, 0); c07_nshards = h_argi(argc, argv, 4, 1);
+    c07_shard = h_argi(argc, argv, 3, 0); c07_nshards = h_argi(argc, argv, 4, 1); c07_thorough = nrandom > 50000;
     enumerate();
+    enumerate2();
+    enumerate_real();
+    real_sweep(c07_thorough ? 1 : 5);
     randoms(nrandom, seed);
   }
   c07_fini();
